@@ -114,7 +114,9 @@ def run_harness(binary, casefile, timeout=900, case_ms=5000):
 CMAX = {'u8': 2**8 - 1, 'u16': 2**16 - 1, 'u32': 2**32 - 1, 'u64': 2**64 - 1, 'usize': 2**64 - 1}
 
 OPC = {
-    'bloom': {'new': 0, 'ins': 2, 'q': 3, 'union': 4, 'clear': 5, 'clone': 6, 'obs': 7, 'empty': 9},
+    'bloom': {'new': 0, 'ins': 2, 'q': 3, 'union': 4, 'clear': 5, 'clone': 6, 'obs': 7, 'len': 8, 'empty': 9},
+    'mem': {},
+    'sizing': {'bloom': 1, 'cms': 2, 'cuckoo4': 3, 'cuckoo8': 4},
     'cms': {'new': 0, 'add': 2, 'q': 3, 'merge': 4, 'clear': 5, 'clone': 6, 'obs': 7, 'empty': 9},
     'hll': {'new': 0, 'fromregs': 1, 'addh': 2, 'add': 3, 'merge': 4, 'clear': 5, 'clone': 6, 'regs': 7, 'empty': 9},
     'cuckoo': {'new': 0, 'ins': 2, 'q': 3, 'union': 4, 'clear': 5, 'clone': 6, 'obs': 7, 'del': 8, 'dobs': 10},
@@ -198,6 +200,12 @@ def translate_ops(case, aux):
                 else:
                     toks += [4]; j += 1
             out.append((ol(4, toks, [], r), k)); continue
+        if case.st == 'mem':
+            kind = args[0]
+            if res != ['panic'] and kind in ('bloom', 'cms', 'hll', 'cuckoo', 'qf'):
+                oc_, a_ = {'bloom': (1, args[1:3]), 'cms': (2, args[1:3] + [4]), 'hll': (3, args[1:2]), 'cuckoo': (4, args[1:4]), 'qf': (5, args[1:3])}[kind]
+                out.append((ol(oc_, a_, [], 'S 1 %d' % int(res[0])), k))
+            continue
         if case.st == 'td' and name == 'new' and res != ['panic']:
             out.append((ol(0, [args[0], args[3]], [], 'S 0'), k)); continue
         if case.st == 'td' and name == 'audit':
